@@ -38,18 +38,25 @@ theorem C20_no_connect_in_any_callback (cfg : Cfg) (fuel : Nat) (st : St) (acts 
     (runActs cfg fuel st acts []).1.closing = true ∧ ∀ o ∈ (runActs cfg fuel st acts []).2, o.connects = false :=
   runActs_closing cfg fuel st acts [] h (by simp)
 
-/-- `close()` marks the client closed, forgets every broker client and clears the routing metadata, in
-    every state; a second `close()` raises and changes nothing. -/
+/-- `close()` clears the routing metadata in every state; a second `close()` (which since 1d62725 returns
+    the pending close Deferred instead of raising) leaves cache, clients and the closed flag as they are. -/
 theorem C20_metadata_cleared (cfg : Cfg) (st : St) (o : Nat) :
     (exec cfg st (.finishClose o)).1.cache.t2b = [] ∧ (exec cfg st (.finishClose o)).1.cache.topicParts = [] ∧
     (exec cfg st (.finishClose o)).1.cache.topicErrs = [] ∧ (exec cfg st (.finishClose o)).1.cache.groups = [] ∧
-    (∀ env, st.closing = true → step cfg st env (.close o) = ({ st with env := env }, [.raised o "AttributeError"])) := by
+    (∀ env, st.closing = true →
+      (step cfg st env (.close o)).1.cache = st.cache ∧ (step cfg st env (.close o)).1.closing = true ∧
+      (step cfg st env (.close o)).1.bcs = st.bcs) := by
   refine ⟨?_, ?_, ?_, ?_, ?_⟩
   · simp only [exec]; split <;> rfl
   · simp only [exec]; split <;> rfl
   · simp only [exec]; split <;> rfl
   · simp only [exec]; split <;> rfl
-  · intro env h; simp [step, h]
+  · intro env h
+    simp only [step, h, if_true]
+    split
+    · simp only [fuel, runActs, exec]
+      split <;> simp [runActs, h]
+    · exact ⟨rfl, rfl, rfl⟩
 
 /-- New operations after close fail at once, synchronously inside the call: a metadata load reports
     `KafkaUnavailableError`, and nothing is sent. -/
@@ -61,6 +68,26 @@ theorem C20_new_ops_fail (cfg : Cfg) (st : St) (u : Nat) (x : Unaware) (h : st.c
   refine ⟨by simp [exec, h], ?_, rfl⟩
   intro lo all hx ho
   simp [exec, hx, ho, Kind.isCancel]
+
+/-- The code (and therefore the model) violates `C20_close_awaits_bootstrap_connections`: a fresh client
+    loads metadata, the bootstrap host accepts, the client is closed — the bootstrap connection is told to
+    close and the close Deferred fires in the same step, before any connection-lost notification. -/
+theorem C20_close_awaits_bootstrap_connections_counterexample :
+    ¬ Open.C20_close_awaits_bootstrap_connections := by
+  intro h
+  have := h { timeout := 10, disconnectOnTimeout := false, bootHosts := [("boot", 9092)] }
+    [({ shuffles := [[], [0]] }, .load 0 []), ({}, .bootOk 0), ({}, .close 1)]
+  revert this
+  decide +kernel
+
+/-- What does hold: if no bootstrap connection is open when `close()` is called (no broker-unaware
+    request has a request in flight on a bootstrap host), the close step tells no bootstrap connection to
+    close, so there is nothing the close Deferred could fail to wait for. -/
+theorem C20_close_awaits_bootstrap_connections_partial (cfg : Cfg) (st : St) (env : Env) (o : Nat)
+    (hc : st.closing = false) (hb : NoBootReq st) :
+    ∀ ob ∈ (step cfg st env (.close o)).2, ob.isBootLose = false := by
+  simp only [step, hc, Bool.false_eq_true, if_false]
+  exact runActs_closing_nbr cfg fuel _ _ _ rfl (fun x hx => hb x hx) (by simp)
 
 /-! Non-vacuity: a client with one connected broker and a request in flight is closed; the pending load
     fails in the same step, the broker client is closed, the close Deferred fires only when the broker
@@ -95,8 +122,11 @@ C20_closed_for_ever
 C20_no_connect_in_any_callback
 C20_metadata_cleared
 C20_new_ops_fail
+C20_close_awaits_bootstrap_connections_counterexample
+C20_close_awaits_bootstrap_connections_partial
 -/
 /- OPEN_STATEMENTS
 C20_model_traces_satisfy_monitor
 C20_close_leaves_no_bootstrap_pending
+C20_close_awaits_bootstrap_connections
 -/
